@@ -10,6 +10,26 @@ clean=fail; patched=pass; suite=unknown
 (cd $wt && PYTHONPATH=$wt PYTHONHASHSEED=0 timeout 300 /venv/bin/python "$d/demo.py" >/dev/null 2>&1) && clean=pass
 if ! git -C $wt apply "$d/patch.diff" 2>/dev/null; then echo "KEEP $name: patch does not apply to HEAD"; git -C /repo worktree remove --force $wt; exit 2; fi
 (cd $wt && PYTHONPATH=$wt PYTHONHASHSEED=0 timeout 300 /venv/bin/python "$d/demo.py" >/dev/null 2>&1) || patched=fail
+prev=""
+if [ -n "$KEEP_REUSE_SUITE" ] && [ -f /verif/seeded/$name/meta.json ]; then
+  # reuse the recorded suite result when the patch is unchanged (the head it was run on is kept in the record)
+  prev=$(/venv/bin/python - "$name" "$d" <<'PY' 2>/dev/null
+import json, sys, subprocess, re
+name, d = sys.argv[1:3]
+m = json.load(open('/verif/seeded/%s/meta.json' % name))
+head = subprocess.run(['git','-C','/repo','rev-parse','--short','HEAD'], stdout=subprocess.PIPE, text=True).stdout.strip()
+same = open('/verif/seeded/%s/patch.diff' % name).read() == open(d + '/patch.diff').read()
+if same:
+    for w in m.get('what_was_run', []):
+        r = re.search(r'stable_pass=\d+ missing=\d+', w)
+        if r:
+            ran = re.search(r'suite last run on (\w+)', w)
+            ran = ran.group(1) if ran else m.get('confirmed_on_repo_head')
+            print(r.group(0) + ('' if ran == head else ' (suite last run on %s)' % ran))
+PY
+)
+fi
+if [ -n "$prev" ]; then suite="$prev"; else
 suite=$(cd $wt && /venv/bin/python - <<PY 2>/dev/null
 import json, subprocess, xml.etree.ElementTree as ET, os
 base = json.load(open('/root/.vp/BASELINE.json'))
@@ -22,6 +42,7 @@ missing=[t for t in base['stable_pass'] if t not in ok]
 print('stable_pass=%d missing=%d' % (len(base['stable_pass']), len(missing)))
 PY
 )
+fi
 out=$(cd /verif && VERIF_REPO=$wt ./check $pid --tier quick 2>&1 | grep -v conda)
 if echo "$out" | grep -q '^VIOLATION'; then verdict=caught; else verdict=missed; fi
 git -C /repo worktree remove --force $wt
